@@ -47,3 +47,25 @@ def eval_many(w, exprs, prelude="", extra_decls="", style="expanded", _depth=0):
     mid = len(exprs) // 2
     return eval_many(w, exprs[:mid], prelude, extra_decls, style, _depth + 1) + \
         eval_many(w, exprs[mid:], prelude, extra_decls, style, _depth + 1)
+
+
+def eval_each(w, exprs, prelude="", style="expanded"):
+    """like eval_many but one compilation per expression (for expressions expected to fail)"""
+    out = []
+    for base in range(0, len(exprs), 64):
+        chunk = exprs[base:base + 64]
+        rs = w.batch([{"text": _sheet([e], prelude, ""), "style": style, "budgets": {"steps": 2000000}} for e in chunk])
+        for r in rs:
+            if "ok" in r:
+                p = r.get("probe") or []
+                if p and len(p[0]) >= 2:
+                    out.append(("ok", p[0][1] if len(p[0]) == 2 else {"t": "multi", "v": p[0][1:]}))
+                else:
+                    out.append(("ok", {"t": "missing"}))
+            elif "err" in r:
+                out.append(("err", r["err"].get("msg", "")))
+            elif "panic" in r:
+                out.append(("panic", r["panic"].get("msg", "") + " @ " + r["panic"].get("loc", "")))
+            else:
+                out.append(("other", str(r)[:200]))
+    return out
